@@ -149,3 +149,16 @@ package index
 //gvc:  requires nn: idx != nil
 //gvc:  sink encodeHeader requires version: 2 <= idx.Version && idx.Version <= 4
 //gvc:end
+
+// entryID (C12: decoding go-git's output gives back what was encoded): the
+// object name written for an entry is exactly as long as the index's hash --
+// the entry padding is computed from that size.
+//gvc:func (*Encoder).entryID
+//gvc:  props C12
+//gvc:  theory int
+//gvc:  opt coarse
+//gvc:  opt frame args
+//gvc:  requires nn: entry != nil && e.hash != nil
+//gvc:  results id err
+//gvc:  ensures sized: err == nil ==> len(id) == e.hash.#hsize
+//gvc:end
